@@ -7,7 +7,7 @@ from ..progen import gen_program, profile
 
 ID = "C01"
 PREFIX = ('c01:', 'c03:hang')
-PROFILE = profile(group=16, spawn=20, start=6, catch=10, cancel=14, scope=8, forever=5, wait=6, ext=3, max_stmts=60, patterns={'late_spawn': 2, 'shielded_group_failure': 1, 'cleanup_failure_under_outer_cancel': 1, '_chance': 25})
+PROFILE = profile(group=16, spawn=20, start=6, catch=10, cancel=14, scope=8, forever=5, wait=6, ext=3, max_stmts=60, patterns={'late_spawn': 2, 'shielded_group_failure': 1, 'cleanup_failure_under_outer_cancel': 1, 'native_cancel_at_last_child_done': 2, 'outsider_start': 2, 'native_at_group_join': 1, '_chance': 30})
 RULE = ('Hypothesis-generated task trees (nested groups, children spawning children into their own or enclosing groups also after cancellation, start(), children that block, return, raise or catch cancellation with shielded cleanup; cancels from inside, siblings and external callbacks); non-trivial = a group with >= 2 children of which at least one was still running when the body ended; distinct = distinct canonical JSON')
 ASSUMPTIONS = ["reference semantics (mirror) evaluated on public attributes cancel_called/shield of every scope on the chain; the only private access is fetching a child's handle scope object at its first step", 'every indefinite wait sits in a harness guard scope cancelled after 40 cycles', "asyncio's FIFO ready queue is not permuted; schedules vary through generated delays, cancel placement, external loop callbacks and loop configuration"]
 TECHNIQUE = 'Hypothesis-generated task-tree programs; history invariants (ended-before-exit, no step after exit, handle status/value agreement)'
